@@ -238,8 +238,20 @@ def get_modified_time_unit(ctx):
                 raise PermissionError(p)
             return SInt(ctx, t)
 
+    class _StatResult:
+        """os.stat(path): only st_mtime is modelled (seconds, like os.path.getmtime); st_mtime_ns etc. are not: undecided"""
+
+        @property
+        def st_mtime(self):
+            return SInt(ctx, t)
+
     class _os:
         path = _path
+
+        @staticmethod
+        def stat(p, *a, **k):
+            _path.getmtime(p)       # same existence / access outcomes, same log entry
+            return _StatResult()
 
     class _datetime:
         @staticmethod
@@ -451,7 +463,7 @@ def _replay_mounted(ob):
 
     from ujvc.z3env import REPO_SRC
 
-    p = subprocess.run(["/venv/bin/python", "-c", MOUNTED_SCRIPT], env=dict(os.environ, PYTHONPATH=REPO_SRC), capture_output=True, text=True, timeout=120)
+    p = __import__('ujvc.units', fromlist=['run_native_p']).run_native_p(["/venv/bin/python", "-c", MOUNTED_SCRIPT], env=dict(os.environ, PYTHONPATH=REPO_SRC), timeout=120)
     return {"reproduced": p.returncode == 1, "detail": (p.stdout + p.stderr)[-2000:], "script": MOUNTED_SCRIPT}
 
 
@@ -523,14 +535,17 @@ def _replay(ob):
 
     from ujvc.z3env import REPO_SRC
 
-    p = subprocess.run(["/venv/bin/python", "-c", REPLAY_SCRIPT], env=dict(os.environ, PYTHONPATH=REPO_SRC), capture_output=True, text=True, timeout=300)
+    p = __import__('ujvc.units', fromlist=['run_native_p']).run_native_p(["/venv/bin/python", "-c", REPLAY_SCRIPT], env=dict(os.environ, PYTHONPATH=REPO_SRC), timeout=300)
     return {"reproduced": p.returncode == 1, "detail": (p.stdout + p.stderr)[-3000:], "script": REPLAY_SCRIPT}
 
 
 REPLAYS = [("stores.MountedStore*", _replay_mounted), ("stores.*", _replay)]
 
 
-@unit("stores.native-roundtrip[bounded]", props=["C12"], assumptions=["bounded stand-in: generated values (texts with every line terminator, JSON trees, pickles, bytes), 4 encodings, str and pathlib paths"],
+@unit("stores.native-roundtrip[bounded]", props=["C12"],
+      functions=[(REL, "get_modified_time"), (REL, "FileStore.get_modified_time"), (MOUNT, "MountedStore.read"), (MOUNT, "MountedStore.write")]
+      + [(STORES[c], f"{c}.read") for c in STORES] + [(STORES[c], f"{c}.write") for c in STORES],
+      assumptions=["bounded stand-in: generated values (texts with every line terminator, JSON trees, pickles, bytes), 4 encodings, str and pathlib paths"],
       min_obligations=1, kind="bounded")
 def stores_bounded(ctx):
     """bounded: real stores in a temporary directory over generated values; validates the assumed stdlib contracts (T8)"""
